@@ -166,6 +166,53 @@ def diff(a: Dict[str, Any], b: Dict[str, Any], tol: Optional[float] = None) -> O
     return None
 
 
+def _pairs(a: Dict[str, Any], b: Dict[str, Any]) -> List[Tuple[str, Any, Any]]:
+    out = [(f"output[{i}]", x, y) for i, (x, y) in enumerate(zip(a["outs"], b["outs"]))]
+    ga, gb = a.get("grads"), b.get("grads")
+    if ga is not None and gb is not None:
+        out += [(f"grad(input[{i}])", x, y) for i, (x, y) in enumerate(zip(ga["in"], gb["in"]))]
+        out += [(f"grad(param {n})", ga["params"][n], gb["params"].get(n)) for n in sorted(ga["params"])]
+    return out
+
+
+def within_rounding_band(got: Dict[str, Any], want: Dict[str, Any], make_ref: Any, holder: Any, inputs: Any,
+                         gseed: int, backward: bool, no_grad: bool = False, out_mask: Any = None,
+                         samples: int = 3, factor: float = 8.0, eps: float = 2.0 ** -23) -> bool:
+    """True if every tensor of `got` differs from `want` by no more than `factor` x what
+    one-ulp perturbations of every intermediate of the reference program produce (measured, per
+    tensor, over `samples` seeded perturbation patterns).  make_ref(jitter) -> Reference."""
+    plain = make_ref(None)
+    base = run(lambda *xs: plain.run(holder, xs), holder, clone_inputs(inputs), gseed, backward=backward,
+               out_mask=out_mask, no_grad=no_grad)
+    band: Dict[str, float] = {}
+    for s in range(samples):
+        jr = make_ref((eps, s + 1))
+        jit = run(lambda *xs: jr.run(holder, xs), holder, clone_inputs(inputs), gseed, backward=backward,
+                  out_mask=out_mask, no_grad=no_grad)
+        for name, x, y in _pairs(jit, base):
+            if isinstance(x, torch.Tensor) and isinstance(y, torch.Tensor) and x.shape == y.shape and x.numel():
+                d = (x.double() - y.double()).abs()
+                d = d[torch.isfinite(d)]
+                band[name] = max(band.get(name, 0.0), float(d.max()) if d.numel() else 0.0)
+    for name, x, y in _pairs(got, want):
+        if (x is None) != (y is None):
+            return False
+        if x is None or not isinstance(x, torch.Tensor):
+            continue
+        if x.shape != y.shape or x.dtype != y.dtype:
+            return False
+        if not x.numel() or torch.equal(x, y):
+            continue
+        d = (x.double() - y.double()).abs()
+        if bool(torch.isnan(d).any()):
+            if not bool((torch.isnan(x) == torch.isnan(y)).all()):
+                return False
+            d = d[~torch.isnan(d)]
+        if d.numel() and float(d.max()) > factor * band.get(name, 0.0):
+            return False
+    return True
+
+
 def grads_close_globally(a: Dict[str, Any], b: Dict[str, Any], rel: float) -> bool:
     """True if every gradient pair differs by at most rel x (largest |value| among all
     gradients): float-rounding level, irrespective of how small an individual tensor is."""
